@@ -1427,13 +1427,17 @@ class CSSMatch(_DocumentNav):
 
         `:defined` is related to custom elements in a browser.
 
-        - If the document is XML (not XHTML), all tags will match.
+        - If the document is XML (not XHTML), no tag will match: `:defined` is specific to HTML.
         - Tags that are not custom (don't have a hyphen) are marked defined.
         - If the tag has a prefix (without or without a namespace), it will not match.
 
         This is of course requires the parser to provide us with the proper prefix and namespace info,
         if it doesn't, there is nothing we can do.
         """
+
+        # `:defined` only applies to HTML documents
+        if not self.is_html:
+            return False
 
         name = self.get_tag(el)
         return (
